@@ -31,7 +31,7 @@ func (e *Engine) newTrans(fn *ssa.Function) *Trans {
 	tr := &Trans{eng: e, fn: fn, name: e.fnKey(fn), il: newILFunc(e.fnKey(fn)),
 		obCount: map[string]int{}, loopInfo: map[*ILBlock]*loopOrigin{}, callN: map[string]int{},
 		localVar: map[string][]*localRef{}, safety: true, lets: map[string]TExpr{}, modCoarse: map[string]bool{},
-		cellVals: map[*MVar]*Val{}, defs: map[string]string{}, rangeIntBound: map[*MVar]string{}, freshRefs: map[string]bool{}}
+		cellVals: map[*MVar]*Val{}, defs: map[string]string{}, rangeIntBound: map[*MVar]string{}, freshRefs: map[string]bool{}, knownNew: map[string]bool{}, knownOld: map[string]bool{}}
 	tr.alloc = tr.il.mvar("$alloc", "Int")
 	tr.contract = e.contractFor(fn)
 	return tr
@@ -127,7 +127,20 @@ func (e *Engine) translate(fn *ssa.Function) (res *FuncResult, tr *Trans) {
 		res.HasSpec = true
 		tr.props = ct.Tags
 		tr.setupFrame(ct, sc)
-		for _, cl := range ct.Requires {
+		for _, oi := range ct.PreOrder {
+			if oi < 0 {
+				l := ct.Lets[-oi-1]
+				te, err := sc.elab(l.E)
+				if err != nil {
+					e.fatal("%s: let %s: %v", ct.File, l.Name, err)
+					continue
+				}
+				c := tr.freshConst("let_"+l.Name, te.Sort)
+				entry.assume(fmt.Sprintf("(= %s %s)", c, te.E))
+				sc.vars[l.Name] = TExpr{E: c, Sort: te.Sort, GoT: te.GoT, Old: te.Old}
+				continue
+			}
+			cl := ct.Requires[oi]
 			te, err := sc.elab(cl.E)
 			if err != nil {
 				e.fatal("%s:%d: requires %q: %v", ct.File, cl.Line, cl.Src, err)
@@ -135,16 +148,22 @@ func (e *Engine) translate(fn *ssa.Function) (res *FuncResult, tr *Trans) {
 			}
 			entry.assume(te.E)
 			markOld(sc, cl.E)
-		}
-		for _, l := range ct.Lets {
-			te, err := sc.elab(l.E)
-			if err != nil {
-				e.fatal("%s: let %s: %v", ct.File, l.Name, err)
-				continue
+			// parameters declared new(p) / isold(p): heap reads through them need no case split
+			nn, on := map[string]bool{}, map[string]bool{}
+			newNames(cl.E, nn)
+			oldNames(cl.E, on)
+			for n := range nn {
+				if v, ok := sc.lookup(n); ok && v.Cell == nil {
+					tr.knownNew[v.E] = true
+					v.New = true
+					sc.vars[n] = v
+				}
 			}
-			c := tr.freshConst("let_"+l.Name, te.Sort)
-			entry.assume(fmt.Sprintf("(= %s %s)", c, te.E))
-			sc.vars[l.Name] = TExpr{E: c, Sort: te.Sort, GoT: te.GoT, Old: te.Old}
+			for n := range on {
+				if v, ok := sc.lookup(n); ok && v.Cell == nil {
+					tr.knownOld[v.E] = true
+				}
+			}
 		}
 	}
 	cov := tr.ob("cover", "entry", fn.Pos(), "background axioms and preconditions are satisfiable", tr.eng.propsFor(tr.name, "cover"))
@@ -342,9 +361,24 @@ func (tr *Trans) onlyIncremented(l *ILLoop, v *MVar) bool {
 func (tr *Trans) loopScope(l *ILLoop) *Scope {
 	sc := tr.scope.child()
 	lpos := token.Pos(minPos(l))
+	loopFrame, _ := l.Head.Owner.(*Frame)
+	visible := func(fr *Frame) bool {
+		if loopFrame == nil {
+			return fr.parent == nil
+		}
+		for f := loopFrame; f != nil; f = f.parent {
+			if f == fr {
+				return true
+			}
+		}
+		return false
+	}
 	for name, refs := range tr.localVar {
 		var best *localRef
 		for _, r := range refs {
+			if !visible(r.frame) {
+				continue
+			}
 			if r.obj != nil {
 				if r.obj.Parent() == nil || !r.obj.Parent().Contains(lpos) {
 					continue
@@ -395,8 +429,28 @@ func (tr *Trans) loopScope(l *ILLoop) *Scope {
 	return sc
 }
 
+// newNames collects identifiers v for which the formula contains the conjunct new(v).
+func newNames(n Node, out map[string]bool) {
+	switch x := n.(type) {
+	case *NBinary:
+		if x.Op == "&&" {
+			newNames(x.X, out)
+			newNames(x.Y, out)
+		}
+	case *NCall:
+		if x.Fn == "new" && len(x.Args) == 1 {
+			if id, ok := x.Args[0].(*NIdent); ok {
+				out[id.Name] = true
+			}
+		}
+	}
+}
+
 // markOld records isold(x) conjuncts of an assumed clause in the scope itself.
 func markOld(sc *Scope, n Node) {
+	sc.learnConstOnly = true
+	sc.learn(n)
+	sc.learnConstOnly = false
 	names := map[string]bool{}
 	oldNames(n, names)
 	for name := range names {
